@@ -221,6 +221,21 @@ var rules = []rule{
 		return [][]string{{"print := 1", "zz_y := print"}, {"len:num", "zz_y := len"}, {"err := true", "print err"}}[rapid.IntRange(0, 2).Draw(t, "v")]
 	}},
 	{name: "type-mismatch", lines: func(t *rapid.T, _ blockRef) []string {
+		if rapid.Bool().Draw(t, "generated-operands") {
+			// an operator applied to operands of two different kinds (spec.md#operators-and-expressions:
+			// both operands of a binary operator have the same type; [] and {} stand for arrays resp. maps only)
+			zoo := []struct{ src, kind string }{{"1", "num"}, {"zz_n", "num"}, {"\"a\"", "string"}, {"true", "bool"}, {"[1]", "array"}, {"[\"s\"]", "array"},
+				{"{a:1}", "map"}, {"[]", "array"}, {"{}", "map"}, {"zz_a", "array"}, {"zz_m", "map"}}
+			for {
+				a := zoo[rapid.IntRange(0, len(zoo)-1).Draw(t, "lhs")]
+				b := zoo[rapid.IntRange(0, len(zoo)-1).Draw(t, "rhs")]
+				op := rapid.SampledFrom([]string{"+", "-", "/", "%", "<", ">=", "==", "!=", "and", "or"}).Draw(t, "op")
+				if a.kind == b.kind {
+					continue
+				}
+				return []string{"zz_n := 2", "zz_a := [3]", "zz_m := {b:4}", "print zz_n zz_a zz_m", "print (" + a.src + " " + op + " " + b.src + ")"}
+			}
+		}
 		return [][]string{
 			{"zz_t:num", "zz_t = \"s\"", "print zz_t"},
 			{"print 1+\"a\""},
